@@ -42,7 +42,7 @@ PROP = {'title': 'Generic operations conserve values: rvalues moved once, lvalue
  'technique': 'registry of generic operations x argument shapes x value category of every argument, instantiated with an instrumented '
               'element type (identity, copy/move/assign counters, moved-from flag, logged payload reads); per call an exact oracle on the '
               'identities found in the result and in the arguments; move-only instantiation of every entry as a compile probe',
- 'level_text': 'Every registered operation (about 150 entries from algorithm, container, grid, tree, optional, either, variant, record, '
+ 'level_text': 'Every registered operation (about 170 entries from algorithm, container, grid, tree, optional, either, variant, record, '
                'tuple, array, options, parse and the helpers move_if_rvalue / move_iterator_if_rvalue / move_clear) is called for every combination of the stated shapes (empty/one/three elements, '
                'absent/present, each alternative, each failure position) and value categories (lvalue, const lvalue, rvalue) of all its '
                'arguments. The element type records every special member call per value identity, so a copy of an rvalue element, a move '
@@ -55,7 +55,8 @@ PROP = {'title': 'Generic operations conserve values: rvalues moved once, lvalue
                'copies) and are not part of the move-only probes',
  'binaries': [{'name': 'C05',
                'sources': ['harness/C05.cpp', 'harness/C05_grid_tree.cpp', 'harness/C05_optional.cpp', 'harness/C05_either_variant.cpp',
-                           'harness/C05_record_tuple.cpp', 'harness/C05_array.cpp', 'harness/C05_options.cpp', 'harness/C05_parse.cpp'],
+                           'harness/C05_record_tuple.cpp', 'harness/C05_array.cpp', 'harness/C05_options.cpp', 'harness/C05_parse.cpp',
+                           'harness/C05_nested.cpp', 'harness/C05_assoc.cpp'],
                'libs': ['core', 'options'],
                'flavour': 'asan'}],
  'compile_probes': [{'name': 'move_only:' + n, 'source': 'harness/C05_probe_mo.cpp', 'flags': ['-DC05_PROBE=%d' % k]} for k, n in _MO] +
@@ -75,7 +76,19 @@ PROP = {'title': 'Generic operations conserve values: rvalues moved once, lvalue
          'unchanged; lvalue and const lvalue arguments element-wise identical and not moved-from; no read of a moved-from payload; '
          'live-object balance zero after destruction. Compile probes: every entry with rvalue arguments instantiated with the move-only '
          'element type and by-value callbacks (the documented callback signature), one TU per entry.',
- 'assumptions': ['moves are counted but never limited: an element moved through several layers is not a violation (max moves per element '
+ 'assumptions': ['nested elements: std::vector<X> for X in {grid, tree, optional, either, variant, array, tuple, record, strong_typedef, '
+                 'recursive, unique_ptr} over the tracked type is forced to reallocate (push_back/emplace_back at capacity 1,2,3 '
+                 '(thorough ..8), container::join with the first vector at capacity in all 9 category combinations and a 3-argument rvalue '
+                 'join, map_optional / map_concat / optional::cat producing 2,3,5 (thorough ..9) X): no tracked element may be copied, '
+                 'signatures nested_in_vector:<X>:<argument>:rvalue_element_copied; the nothrow-move traits of every X are recorded as '
+                 'counters (all 1 on the unmodified tree) but the checks do not consult them',
+                 'associative join: container::join of std::map/multimap/unordered_map<tracked,tracked_b> and std::set/multiset<tracked>, '
+                 '2 and 3 arguments (colliding keys), all 9 / 27 category combinations; lvalue and const lvalue arguments unchanged, the first '
+                 'rvalue argument taken over without any copy, mapped values of later rvalue arguments not copied; keys of maps and elements '
+                 'of sets of later rvalue arguments are only reachable as const objects, their copies are tolerated and counted '
+                 '(info:assoc_join_tolerated_copies_of_const_reached_elements:<kind>); result = first-key-wins union (all elements for multi '
+                 'containers), compared in key order, as a multiset for unordered_map',
+'moves are counted but never limited: an element moved through several layers is not a violation (max moves per element '
                  'and operation are reported as counters info:max_moves_of_one_rvalue_element:<op>)',
                  'an element of an rvalue range that is delivered to the callback as an lvalue is reported (signature '
                  '<op>:<arg>:rvalue_element_passed_as_lvalue) because a callback with the documented by-value parameter then copies it; '
